@@ -1037,3 +1037,36 @@ def choiceconst(repo):
                 "as the constant 1000, and `$size_in_bytes` counts fields under `if false:`", m.rel, block.lineno, f.name)
     res.analysed = [m.rel]
     return res
+
+
+def extint(repo):
+    """R-EXTINT (C16/C13): `external` types with `[is_integer: true]` are user-declarable (documented attribute), so the
+    leaf-range table of the bounds pass, which only knows the prelude's UInt / Int / Bcd, meets other names on accepted
+    input.  Reaching its closing `assert False` (or the `assert not ...module_file` in front of it) is a traceback for
+    `0 [+1] MyInt x` / `let y = x + 1`.  Decided: _set_integer_constraints_from_physical_type leaves with unbounded
+    constraints for a type that is not one of the prelude's (a test of the canonical name's `module_file`) before the
+    name dispatch, and no function of expression_bounds.py asserts that a referenced type lives in the prelude."""
+    res = RuleResult("R-EXTINT")
+    m = repo.mod("compiler/front_end/expression_bounds.py")
+    f = m.funcs.get("_set_integer_constraints_from_physical_type")
+    if f is None:
+        raise AnalysisError("expression_bounds._set_integer_constraints_from_physical_type not found")
+    res.instances = 2
+    guarded = False
+    for n in walk_no_nested_funcs(f.node):
+        if isinstance(n, ast.If) and "module_file" in ast.unparse(n.test) and any(isinstance(x, ast.Return) for x in n.body) \
+                and "infinity" in ast.unparse(n):
+            guarded = True
+    ends_in_assert = any(isinstance(n, ast.Assert) and isinstance(n.test, ast.Constant) and n.test.value is False for n in walk_no_nested_funcs(f.node))
+    if ends_in_assert and not guarded:
+        res.add(f"{m.rel}|{f.name}|unknown-integer-type", f"{f.name} ends in `assert False` for an integer type other than UInt/Int/Bcd and has no "
+                "earlier exit for types outside the prelude: a field of a user-defined `external` with `[is_integer: true]` used in an "
+                "expression ends the compiler with AssertionError", m.rel, f.node.lineno, f.name)
+    for g in m.top_funcs():
+        for n in walk_no_nested_funcs(g.node):
+            if isinstance(n, ast.Assert) and "module_file" in ast.unparse(n.test):
+                res.add(f"{m.rel}|{g.name}|assert-prelude", f"{g.name} asserts `{ast.unparse(n.test)[:70]}`: a referenced integer type defined in a user "
+                        "module (an `external` with `[is_integer: true]`) fails the assertion instead of getting a diagnostic",
+                        m.rel, n.lineno, g.name)
+    res.analysed = [m.rel]
+    return res
